@@ -16,6 +16,8 @@ Lemma gen_mcmc_is_ref : gen_mcmc = ref_mcmc.
 Proof. reflexivity. Qed.
 Lemma gen_scipy_is_ref : gen_scipy = ref_scipy.
 Proof. reflexivity. Qed.
+Lemma gen_simulate_foot_readonly : forallb readonly_atom gen_simulate_foot = true.
+Proof. reflexivity. Qed.
 Lemma gen_settings_copy_is_deep : gen_settings_copy = CopyDeep.
 Proof. reflexivity. Qed.
 
@@ -101,6 +103,20 @@ Section GenProofs.
     - apply (scipy_call_readonly V); auto.
     - intros s p c' Hwf Hc.
       eapply (scipy_call_pure V sread swrite sclone tracked tape seed_pos anc indep simOn SI); eauto.
+  Qed.
+
+  (* simulate as written in the source today: its footprint on the model's own state is reads only (parameters,
+     hyper-parameters, "mixing_matrix"), the rest is draws and `estimate` on clones; any script within that footprint — any
+     number of patients, visits, draws — leaves `model.state` the same object, reading as before *)
+  Theorem src_simulate_pure (I : inst V) script :
+    within V I gen_simulate_foot script = true ->
+    forallb (writes_in V (fun _ => false)) script = true
+    /\ forall s p c', simOn ApiModel.top s s -> api_call script s p = Some c' ->
+         exists s', model_state V c' = Some s' /\ cCur c' = 0 /\ simOn ApiModel.top s' s /\ forall n, snd (sread s' n) = snd (sread s n).
+  Proof.
+    intros Hw. pose proof (within_readonly V I _ _ gen_simulate_foot_readonly Hw) as Hr. split; auto.
+    intros s p c' Hwf Hc.
+    eapply (readonly_call_pure V sread swrite sclone tracked tape seed_pos anc indep simOn SI); eauto.
   Qed.
 End GenProofs.
 
